@@ -316,7 +316,9 @@ TVBinvQ ==
           B == BasisMatrix(lp, Ev.bind)
           zero(v) == \A t \in 1..Len(v) : v[t] = "0"
           shapeOK == Len(Ev.bind) = n /\ (Ev.kind \in {"row", "col", "times"} => Len(x) = n) /\ (Ev.kind = "times" => Len(Ev.vec) = n)
-          fails == IF ~Ev.ret THEN Fail("BinvQFalseOnRegularBasis", ~regular)
+          \* (a query may also fail because the factorization ran into the time limit, LU status TIME = 16: the limit counts the
+          \*  time of the preceding solve, so after a solve stopped by the time limit no time is left)
+          fails == IF ~Ev.ret THEN Fail("BinvQFalseOnRegularBasis", ~regular \/ (Ev.st.ratLU = 16 /\ BRIsFinite(s.tlimit)))
                    ELSE IF ~regular THEN {"BinvQTrueOnSingularOrMissingBasis"}
                    ELSE IF ~Ev.bindOK \/ ~shapeOK THEN {"BinvQ:Shape"}
                    ELSE IF BindFails(lp, s.brow, s.bcol, Ev.bind) # {} THEN BindFails(lp, s.brow, s.bcol, Ev.bind)
